@@ -7,9 +7,10 @@
    map_to, unmap, update_flags, set_flags_p4/p3/p2_entry and translate_page (Paging/Refine*.v: a representation relation
    with a separation invariant over table and allocator frames), and with it the main statement
    at the level of raw table memory (C01_raw_memory_walk_is_history_dictated).
-   Partial: for clean_up, and for RecursivePageTable (whose accesses go
+   (clean_up calls of any range may occur anywhere in those histories:
+   C01_raw_memory_walk_with_cleanups.)  Partial: for RecursivePageTable (whose accesses go
    through recursive addresses), the refinement is checked by the correspondence, not proved. *)
-From X86 Require Import Paging.Mapped Paging.Tree Paging.TreeProofs Paging.Refine Paging.RefineOps Paging.RefineParent Paging.RefineWalk Paging.RefineHistory Paging.Run.
+From X86 Require Import Paging.Mapped Paging.Tree Paging.TreeProofs Paging.Refine Paging.RefineOps Paging.RefineParent Paging.RefineWalk Paging.RefineHistory Paging.RefineClean Paging.RefineHistoryClean Paging.Run.
 Open Scope Z_scope.
 
 (* after ANY history from the empty level-4 table, every index path reaches exactly the leaf the
@@ -214,3 +215,20 @@ Theorem C01_raw_memory_hypotheses_satisfiable :
     outs = [[0; 4096]; [0; 2097152]; [0]; [0; 8192; 4096]; [0; 2097152]].
 Proof. exact hypotheses_satisfiable. Qed.
 Print Assumptions C01_raw_memory_hypotheses_satisfiable.
+
+(* ... and with clean_up / clean_up_addr_range calls over ANY range anywhere in the history *)
+Theorem C01_raw_memory_walk_with_cleanups : forall rootf allocs ri ops s' outs,
+  tframe rootf -> sep (init_pstate rootf allocs ri) rootf empty_children ->
+  Forall cop_ok ops ->
+  cmem_run (init_pstate rootf allocs ri) ops = Ok (s', outs) ->
+  forall va,
+    match dictated (fun _ => None) (map cop_top ops) outs (idx_list 0 va) with
+    | None => hw_walk s' va = None
+    | Some (w, n) =>
+        exists wr us,
+          enc_walk (hw_walk s' va) =
+            [leaf_addr w - leaf_addr w mod size_of_rem n + Z.land va (size_of_rem n - 1);
+             size_of_rem n; w; b2z wr; b2z us]
+    end.
+Proof. exact memory_walk_is_history_dictated_with_cleanup. Qed.
+Print Assumptions C01_raw_memory_walk_with_cleanups.
